@@ -422,6 +422,38 @@ d_relay := {}; d_calc_allowed_ts := {}; d_distributed_2z := {}; d_burned_2z := {
         ok
     }
 
+    /// Look-alike of the revenue-distribution config: same bytes (right type tag and size), every role key replaced by
+    /// `attacker`, placed at `to` under `owner`.
+    pub async fn forge_rd_config(&mut self, attacker: &K, to: &K, owner: &K) {
+        let p = self.keys.pk(&K::RdConfig);
+        let Some(a) = self.ctx.banks_client.get_account(p).await.unwrap() else { return };
+        let mut data = a.data.clone();
+        let ak = self.keys.pk(attacker).to_bytes();
+        use core::mem::offset_of;
+        for off in [offset_of!(rd::state::ProgramConfig, admin_key), offset_of!(rd::state::ProgramConfig, debt_accountant_key),
+                    offset_of!(rd::state::ProgramConfig, rewards_accountant_key), offset_of!(rd::state::ProgramConfig, contributor_manager_key)] {
+            if data.len() >= 8 + off + 32 { data[8 + off..8 + off + 32].copy_from_slice(&ak); }
+        }
+        self.op(Op::ForgeRaw { to: to.clone(), owner: owner.clone(), lamports: a.lamports, data }).await;
+    }
+    pub async fn forge_pp_config(&mut self, attacker: &K, to: &K, owner: &K) {
+        let p = self.keys.pk(&K::PpConfig);
+        let Some(a) = self.ctx.banks_client.get_account(p).await.unwrap() else { return };
+        let mut data = a.data.clone();
+        let ak = self.keys.pk(attacker).to_bytes();
+        use core::mem::offset_of;
+        for off in [offset_of!(pp::state::ProgramConfig, admin_key), offset_of!(pp::state::ProgramConfig, sentinel_key)] {
+            if data.len() >= 8 + off + 32 { data[8 + off..8 + off + 32].copy_from_slice(&ak); }
+        }
+        self.op(Op::ForgeRaw { to: to.clone(), owner: owner.clone(), lamports: a.lamports, data }).await;
+    }
+    /// ProgramData look-alike naming `attacker` as upgrade authority (valid loader state, any owner, any address)
+    pub async fn forge_progdata(&mut self, attacker: &K, to: &K, owner: &K) {
+        let data = bincode::serialize(&solana_loader_v3_interface::state::UpgradeableLoaderState::ProgramData {
+            slot: 0, upgrade_authority_address: Some(self.keys.pk(attacker)) }).unwrap();
+        self.op(Op::ForgeRaw { to: to.clone(), owner: owner.clone(), lamports: 2_000_000, data }).await;
+    }
+
     /// the whole history as one Gallina term (with its local definitions)
     pub fn history_term(&self) -> String {
         let mut s = String::new();
